@@ -93,7 +93,7 @@ def tree_matches(ctx, got, spec, decode):
 
 def has_empty_aggregate(spec, is_root=True):
     tag, text, kids = spec
-    if not is_root and text is None and not kids:
+    if text is None and not kids:          # the root included: an empty document root is an empty aggregate like any other
         return True
     return any([has_empty_aggregate(k, False) for k in kids])
 
